@@ -87,6 +87,15 @@ func genArgList(t *rapid.T, p *pools, depth int, budget *int) ArgListM {
 	if depth == 0 && oneIn(t, 10, "manyArgs") {
 		n = rapid.IntRange(5, 12).Draw(t, "nargs")
 	}
+	if depth == 0 && oneIn(t, 25, "deepestNesting") {
+		// the runtime's nesting limit: five levels of braces
+		inner := ArgListM{Items: []ArgM{{Val: genVal(t, p)}}, Dots: rapid.Bool().Draw(t, "deepDots")}
+		for d := 0; d < 4; d++ {
+			cp := inner
+			inner = ArgListM{Items: []ArgM{{Agg: &cp}, {Val: uint64(d)}}}
+		}
+		a.Items = append(a.Items, ArgM{Agg: &inner})
+	}
 	for i := 0; i < n && *budget > 0; i++ {
 		*budget--
 		k := rapid.IntRange(0, 19).Draw(t, "argKind")
@@ -140,12 +149,19 @@ func genFile(t *rapid.T) (string, int) {
 	case 1:
 		return "<autogenerated>", 1
 	}
-	return rapid.SampledFrom(filePool).Draw(t, "file"), rapid.IntRange(1, 99999).Draw(t, "line")
+	line := rapid.IntRange(1, 99999).Draw(t, "line")
+	if oneIn(t, 20, "hugeLine") {
+		line = rapid.SampledFrom([]int{999999999, 1000000000, 2147483647, 2147483648, 4294967296, 999999999999999999}).Draw(t, "hugeLineValue")
+	}
+	return rapid.SampledFrom(filePool).Draw(t, "file"), line
 }
 
 func genPCOff(t *rapid.T) int64 {
 	if oneIn(t, 6, "noPC") {
 		return -1
+	}
+	if oneIn(t, 20, "hugePC") {
+		return rapid.SampledFrom([]int64{0x7fffffff, 0x80000000, 0xffffffff, 0x100000000, 0x7fffffffffffffff}).Draw(t, "hugePCValue")
 	}
 	return int64(rapid.IntRange(1, 0xfffff).Draw(t, "pcoff"))
 }
@@ -356,7 +372,7 @@ func genG(t *rapid.T, p *pools, o DumpOpts, id int) GM {
 				}
 			case 3:
 				f := &g.Frames[rapid.IntRange(0, len(g.Frames)-1).Draw(t, "frameIdx")]
-				if f.Line > 0 {
+				if f.Line > 0 && f.Line < 999999999999999990 { // stay below the 18-digit limit
 					f.Line += rapid.IntRange(1, 3).Draw(t, "lineDelta")
 				}
 			case 4:
@@ -374,7 +390,14 @@ func genG(t *rapid.T, p *pools, o DumpOpts, id int) GM {
 			g.Frames = append(g.Frames, genFrame(t, p))
 		}
 	}
-	if len(g.Frames) > 0 && oneIn(t, 10, "elide") {
+	if len(g.Frames) > 0 && o.MaxFrames >= 100 && oneIn(t, 40, "runtimeElision") {
+		// the runtime's own shape: 50 innermost frames, the marker, 50 outermost frames
+		for len(g.Frames) < 100 {
+			g.Frames = append(g.Frames, g.Frames[len(g.Frames)%max(1, min(len(g.Frames), 3))])
+		}
+		g.Frames = cloneFrames(g.Frames[:100])
+		g.ElideAt, g.ElideN = 50, rapid.IntRange(1, 5000).Draw(t, "elided")
+	} else if len(g.Frames) > 0 && oneIn(t, 10, "elide") {
 		if oneIn(t, 4, "elideOld") {
 			g.ElideOld = true
 			g.ElideAt = len(g.Frames)
